@@ -116,6 +116,38 @@ def gen(tier, rng):
                        "extra_define": rng.random() < 0.5}
 
 
+def check_rebuild(case):
+    """two successive builds to the SAME output path: the second output is the second program's blocks applied to an empty image / patch
+    (nothing of the first build survives)"""
+    wd = tempfile.mkdtemp(prefix="vfC12r")
+    try:
+        first = "*=0x008000\nlda #0x12\nsta.w 0x2100\n*=0x008100\n.db 1, 2, 3, 4\n"
+        second = "*=0x008000\nrts\n*=0x008040\n.db 9\n"
+        out = os.path.join(wd, "out.bin")
+        for name, src in (("a.s", first), ("b.s", second)):
+            open(os.path.join(wd, name), "w").write(src)
+            p = cli(["-o", "out.bin", "-f", case["fmt"], "-m", "low", name], wd)
+            if p.returncode != 0:
+                return f"CLI failed on {name}: {(p.stdout + p.stderr)[-200:]}"
+        ref = assemble(second, rom_type="low_rom")
+        want = {}
+        for a, b in ref["blocks"]:
+            for i, x in enumerate(b):
+                want[a + i] = x
+        raw = open(out, "rb").read()
+        if case["fmt"] == "ips":
+            got = ips_format.apply(ips_format.parse(raw)[0])
+        else:
+            got = {i: x for i, x in enumerate(raw) if i in want or x != 0}
+            if len(raw) != max(want) + 1:
+                return f"second SFC image is {len(raw)} bytes long, expected {max(want) + 1}: content of the first build survives"
+        if got != want:
+            return f"second build's output differs from its own blocks applied to an empty image at {sorted(set(got.items()) ^ set(want.items()))[:4]}"
+        return None
+    finally:
+        shutil.rmtree(wd, ignore_errors=True)
+
+
 def gen_big(tier, rng):
     for mapping in (("low", "low2", "high") if tier == "thorough" else (rng.choice(["low", "low2", "high"]),)):
         for fmt, copier in (("ips", False), ("ips", True), ("sfc", False)):
@@ -133,15 +165,19 @@ def run(tier, seed):
     f = check_symbols()
     if f:
         failures.append({"ident": "bounded/symbol-file", "script": "b_C12.py", "payload": {"symbols": True}, "observed": f})
-    return {"evaluations": len(cases) + 1, "distinct_nontrivial": len({str(c) for c in cases}) + 1,
+    for fmt in ("sfc", "ips"):
+        f = check_rebuild({"fmt": fmt})
+        if f:
+            failures.append({"ident": f"bounded/rebuild-same-path/{fmt}", "script": "b_C12.py", "payload": {"rebuild": True, "fmt": fmt}, "observed": f})
+    return {"evaluations": len(cases) + 3, "distinct_nontrivial": len({str(c) for c in cases}) + 3,
             "rule": "every point of format x mapping x copier-header with -D defines in decimal/hex/binary, programs valid under the mapping (bank "
                     "crossing, two blocks, one contiguous run of more than two full IPS records through .incbin), real CLI in a subprocess vs in-memory API blocks; IPS parsed by the independent reader; SFC image == blocks "
-                    "applied to an empty image; plus one symbol-file program with labels in root/block/named/loop/macro scopes and RAM",
+                    "applied to an empty image; plus two successive builds to the same output path (both formats) and one symbol-file program with labels in root/block/named/loop/macro scopes and RAM",
             "samples": cases[:2], "failures": failures}
 
 
 def replay(payload):
-    f = check_symbols() if payload.get("symbols") else check(payload)
+    f = check_symbols() if payload.get("symbols") else check_rebuild(payload) if payload.get("rebuild") else check(payload)
     return {"failed": f is not None, "observed": f}
 
 
